@@ -303,7 +303,7 @@ func genArgFault(r *Rng, d *DeclSpec, p *Plan, twinCalls []Call) (f ArgFault, ok
 		k := r.Pick(kinds)
 		f.Callee = &CalleeFault{Kind: k, Nth: r.Intn(counts[k]), ID: 100 + r.Intn(900)}
 		if k == "execute" || k == "handler" {
-			f.Callee.Form = r.Pick([]string{"", "", "flags:help", "flags:required", "flags:unknown", "wrap:help", "wrap:marshal", "flags:command required", "flags:help-empty", "typed-nil"})
+			f.Callee.Form = r.Pick([]string{"", "", "flags:help", "flags:required", "flags:unknown", "wrap:help", "wrap:marshal", "flags:command required", "flags:help-empty", "typed-nil", "errtype:help", "errtype:required", "typed-nil-flags"})
 		}
 		switch k {
 		case "callback", "unmarshal":
